@@ -23,7 +23,7 @@ RULE = ("a real RF24Mesh master on a simulated radio; address requests injected 
         "first hop towards the requester really listens on (listening addresses learnt from real "
         "nodes). save_dhcp()/load_dhcp() round trips for every table size 0..255 in both formats. "
         "Non-trivial: >=1 lease granted or refused; distinct = distinct event histories.")
-RULE += (" Later rounds added: non-request frames and requests arriving while the master transmits, an exact release oracle, persistence after the saved table changed (same and new file), ID look-ups of leased addresses, a JSON table loaded mid-history that hands a leased address to another ID, the displaced ID asking again, JSON tables that re-deal the leased addresses among the present IDs (clause loaded_pairs_present).")
+RULE += (" Later rounds added: non-request frames and requests arriving while the master transmits, an exact release oracle, persistence after the saved table changed (same and new file), ID look-ups of leased addresses, a JSON table loaded mid-history that hands a leased address to another ID, the displaced ID asking again, JSON tables that re-deal the leased addresses among the present IDs (clause loaded_pairs_present), releases whose reserved byte holds the node's own ID, another leased ID or an unknown one.")
 REQUIRED = {"table_injective": 20000, "reply_checks": 5000, "release_reassign": 40,
             "persistence_roundtrip": 150, "persistence_after_changes": 500}
 BUDGET = {"quick": 480, "thorough": 900}
@@ -116,6 +116,11 @@ def gen_cases(ctx):
             for sd in range(12):
                 yield {"part": "seq", "events": [["req", 20 + j, via] for j in range(n)] + [["load_json_multi", sd]]
                        + [["req", 40, via], ["rereq", 0], ["load_json_multi", sd + 100], ["req", 41, via]]}
+    for via in (0o4444, 0o2, 0o3):
+        for mode in ("own", "other", "unknown"):
+            for which in (0, 1):
+                yield {"part": "seq", "events": [["req", 20, via], ["req", 21, via], ["req", 22, via],
+                                                 ["rel_r", 20 + which, mode, which], ["req", 30, via], ["req", 20 + which, via]]}
     rng2 = ctx.sub_rng("c16b")
     for w in range(150 if ctx.tier == "quick" else 6000):
         ev = []
@@ -126,7 +131,7 @@ def gen_cases(ctx):
             if r < 0.4:
                 ev.append(["req", rng2.choice(ids), rng2.choice(vias)])
             elif r < 0.5:
-                ev.append(["rel", rng2.choice(ids)])
+                ev.append(["rel_r", rng2.choice(ids), rng2.choice(["own", "other", "other", "unknown"]), rng2.randrange(6)])
             elif r < 0.65:
                 ev.append(["id_lookup", rng2.choice([0o1, 0o3, 0o23]), rng2.randrange(8)])
             elif r < 0.7:
@@ -195,6 +200,18 @@ def one_event(ctx, case, rig, radio, master, ref, ev, hist, fid):
                 return True
             radio.inject_rx(3, net_ref.pack_header(addr, 0, fid, 197, 0))
             master.update()
+        elif ev[0] == "rel_r":
+            # a release as real nodes send it: the header's reserved byte holds whatever the node's
+            # frame buffer held last - its own ID (after joining), 0, or the ID of a child whose
+            # address reply / look-ups it passed along
+            addr = before.get(ev[1])
+            if addr is None:
+                return True
+            others = sorted(k for k in before if k != ev[1])
+            resv = {"own": ev[1], "other": others[ev[3] % len(others)] if others else 0, "unknown": 251}[ev[2]]
+            radio.inject_rx(3, net_ref.pack_header(addr, 0, fid, 197, resv))
+            master.update()
+            ctx.count("releases_with_reserved_%s" % ev[2])
         elif ev[0] == "lookup_frame":
             # a connected node asks for an ID's address: never a lease event
             radio.inject_rx(4, net_ref.pack_header(ev[1], 0, fid, 196, ev[2] & 0xFF) + bytes([ev[2] & 0xFF]))
@@ -314,10 +331,10 @@ def one_event(ctx, case, rig, radio, master, ref, ev, hist, fid):
                           "(history %r)" % (ev, inv[v], k, oct(v), hist[-8:]), case)
             return False
         inv[v] = k
-    if ev[0] in ("rel", "lookup_frame", "data_frame", "id_lookup"):
+    if ev[0] in ("rel", "rel_r", "lookup_frame", "data_frame", "id_lookup"):
         # exactly the released lease disappears / nothing changes; nobody is sent an address
         exp = dict(before)
-        if ev[0] == "rel":
+        if ev[0] in ("rel", "rel_r"):
             exp = {k: v for k, v in before.items() if v != before.get(ev[1])}
         stray = [p for p in rig.air.log[air0:] if p.kind == "data" and p.src is radio
                  and len(p.payload) >= 8 and p.payload[6] == 128]
